@@ -603,7 +603,7 @@ def hoist_verdict(ctx, hprogs, hresults, native):
 # ---------------------------------------------------------------- (C) call graphs
 
 def graphs(ctx):
-    n = scaled(20 if ctx.quick else 300)
+    n = scaled(20 if ctx.quick else 200)
     gs = []
     for i in range(n):
         g = R.graph_program(ctx.rng("graph-%d" % i))
@@ -680,7 +680,7 @@ def correspond(ctx):
 
     # ---- generation (cheap); every runnable program is registered for the single native Go binary
     gs = graphs(ctx)
-    mprogs = gen_modelled(ctx, scaled(40 if ctx.quick else 600))
+    mprogs = gen_modelled(ctx, scaled(40 if ctx.quick else 400))
     cnt = {}
     for p in mprogs:
         construct_counts(p, cnt)
@@ -689,13 +689,13 @@ def correspond(ctx):
         p["nat"] = native_req(dict(files={"main.go": p["src"]}))
     ctx.cov["modelled_constructs"] = cnt
     rprogs = []
-    for i in range(scaled(20 if ctx.quick else 300)):
+    for i in range(scaled(20 if ctx.quick else 200)):
         p = R.rich_program(ctx.rng("rich-%d" % i), masks, static_only=(i % 3 == 0))
         p["nat"] = native_req(dict(files=p["files"]))
         rprogs.append(p)
     pitems, run_probes = probes_prepare(ctx, masks, native_req)
     hprogs = []
-    for i in range(scaled(3 if ctx.quick else 30)):
+    for i in range(scaled(3 if ctx.quick else 20)):
         hp = R.hoist_program(ctx.rng("hoist-%d" % i), masks[:4], 14)
         hp["nat"] = native_req(dict(files=hp["files"]))
         hprogs.append(hp)
